@@ -1,1 +1,362 @@
-"""Rules for C12 (see DESIGN.md section 5)."""
+"""C12 -- all output routes give the same document."""
+import ast
+
+from .. import ev, iso, nf, pat, src
+from ..core import rule, ob, explain, Ob
+from ..ev import PyRaise
+from ..interp import Interp, make_callable, FuncVal, callable_env
+from ..src import Unknown
+from .common import C, need, single
+from . import p14
+
+explain('C12', '''Decided (structural): the dispatch table has the 12 kinds and kind / file extension are lower-cased, svgz
+is the SVG writer through gzip.open (shared with C14.R3); as_svg_data_uri forwards each of its named parameters to the
+same-named parameter of write_svg plus **kw and its defaults equal write_svg's except the two documented ones (xmldecl, nl)
+and unit '' which write_svg normalises; as_png_data_uri, QRCode.svg_data_uri / png_data_uri / save / svg_inline forward
+everything and pin only the documented constants; between a writer's output and the value a route returns only the
+transport coding is applied (base64, percent-encoding, decoding) - as_svg_data_uri additionally rewrites attribute
+quotes: known finding, pinned by tests; the command line: every argparse destination is consumed by symbol creation, is
+output/compact, or is a serialiser keyword; build_config - control code over the option dictionary - is interpreted with
+the parser's defaults for every output kind in lower, upper and mixed case of the extension and passes exactly the
+keywords the serialiser accepts, each with a value equal to the serialiser's own default or normalised to it by the
+serialiser; the colour list equals the 17 colour parameters; a sequence is saved to name-NN-MM.ext built from the parts of
+the name (never used as a format template) with the options forwarded; without --output the tool calls
+QRCode.terminal(border, compact). NOT decided: byte equality of the outputs themselves.''')
+
+
+@rule('C12', 'R1', 4, 'dispatch: 12 kinds, any letter case by kind= or extension, svgz, unknown kinds refused (C14.R3)')
+def r1(fx):
+    for o in p14.r3(fx):
+        if 'serialiser' in o.key or 'kind' in o.key or 'svgz' in o.key:
+            yield o
+
+
+def _call_binding(fx, call, callee_fn, skip_first=0):
+    params = src.params(callee_fn)[skip_first:]
+    bound = {}
+    star_kw = None
+    for i, a in enumerate(call.args):
+        if isinstance(a, ast.Starred):
+            raise Unknown('starred positional forwarding')
+        bound[params[i]] = a
+    for k in call.keywords:
+        if k.arg is None:
+            star_kw = ast.unparse(k.value)
+        else:
+            bound[k.arg] = k.value
+    return bound, star_kw
+
+
+@rule('C12', 'R2', 39, 'route wrappers forward every option to the same-named serialiser parameter; defaults agree')
+def r2(fx):
+    svg = fx.fn('writers', 'write_svg')
+    wrapper = fx.fn('writers', 'colorful.decorate.wrapper')
+    uri = fx.fn('writers', 'as_svg_data_uri')
+    call = single([c for c in src.calls_in(uri, 'write_svg')], 'write_svg call in as_svg_data_uri')
+    # write_svg as seen by callers: wrapper(matrix, matrix_size, out, <colours>, **kw) -> f(matrix, matrix_size, out, cm, **kw)
+    bound, star = _call_binding(fx, call, wrapper)
+    own = [p for p in src.params(uri) if p not in ('matrix', 'matrix_size', 'encode_minimal', 'omit_charset')]
+    svg_params = set(src.params(svg)) | set(src.params(wrapper))
+    for p in own:
+        got = bound.get(p)
+        yield ob(f'as_svg_data_uri({p}) -> write_svg({p})', isinstance(got, ast.Name) and got.id == p and p in svg_params, call,
+                 got=f'{p}={ast.unparse(got)}' if got is not None else 'not passed', want=f'{p}={p}')
+    yield ob('as_svg_data_uri forwards **kw (colours, draw_transparent)', star == 'kw' and uri.args.kwarg is not None, call, got=star, want='**kw')
+    yield ob('as_svg_data_uri writes (matrix, matrix_size) to its own buffer', ast.unparse(bound.get('matrix')) == 'matrix'
+             and ast.unparse(bound.get('matrix_size')) == 'matrix_size' and ast.unparse(bound.get('out')) == 'buff', call,
+             got=[ast.unparse(bound.get(k)) for k in ('matrix', 'matrix_size', 'out') if bound.get(k) is not None], want=['matrix', 'matrix_size', 'buff'])
+    ud, sd = src.param_defaults(uri), src.param_defaults(svg)
+    documented = {'xmldecl': 'False', 'nl': 'False'}
+    for p in own:
+        a, b = ud.get(p), sd.get(p)
+        if a is None or b is None:
+            continue
+        at, bt = ast.unparse(a), ast.unparse(b)
+        if p in documented:
+            ok = at == documented[p]
+            want = f'{documented[p]} (documented difference)'
+        elif p == 'unit':
+            norm = any(pat.match(s, "unit = unit or ''", mode='stmt') is not None for s in svg.body)
+            ok = at == bt or (at == "''" and bt == 'None' and norm)
+            want = f"{bt} (or '' which write_svg normalises with `unit = unit or ''`)"
+        else:
+            ok = at == bt
+            want = bt
+        yield ob(f'default of as_svg_data_uri({p})', ok, uri, got=at, want=want)
+    # png data uri
+    pu = fx.fn('writers', 'as_png_data_uri')
+    c = single([c for c in src.calls_in(pu, 'write_png')], 'write_png call in as_png_data_uri')
+    b = pat.match(c, 'write_png(matrix, matrix_size, buff, scale=scale, border=border, compresslevel=compresslevel, **kw)')
+    yield ob('as_png_data_uri forwards scale, border, compresslevel and **kw', b is not None, c, got=ast.unparse(c), want='write_png(matrix, matrix_size, buff, scale=scale, border=border, compresslevel=compresslevel, **kw)')
+    pd, wd = src.param_defaults(pu), src.param_defaults(fx.fn('writers', 'write_png'))
+    for p in ('scale', 'border', 'compresslevel'):
+        yield ob(f'default of as_png_data_uri({p})', ast.unparse(pd[p]) == ast.unparse(wd[p]), pu, got=ast.unparse(pd[p]), want=ast.unparse(wd[p]))
+    # QRCode methods
+    q = fx.fn('__init__', 'QRCode.svg_data_uri')
+    r = single([s for s in q.body if isinstance(s, ast.Return)], 'return of svg_data_uri')
+    ok = pat.match(r.value, 'writers.as_svg_data_uri(self.matrix, self._matrix_size, xmldecl=xmldecl, nl=nl, encode_minimal=encode_minimal, omit_charset=omit_charset, **kw)') is not None
+    qd = src.param_defaults(q)
+    okd = all(ast.unparse(qd[p]) == ast.unparse(ud[p]) for p in ('xmldecl', 'nl', 'encode_minimal', 'omit_charset'))
+    yield ob('QRCode.svg_data_uri forwards its four options and **kw, same defaults', ok and okd, r, got=ast.unparse(r.value)[:100], want='as_svg_data_uri(self.matrix, self._matrix_size, ..., **kw)')
+    q = fx.fn('__init__', 'QRCode.png_data_uri')
+    r = single([s for s in q.body if isinstance(s, ast.Return)], 'return of png_data_uri')
+    yield ob('QRCode.png_data_uri', pat.match(r.value, 'writers.as_png_data_uri(self.matrix, self._matrix_size, **kw)') is not None, r,
+             got=ast.unparse(r.value), want='writers.as_png_data_uri(self.matrix, self._matrix_size, **kw)')
+    q = fx.fn('__init__', 'QRCode.save')
+    st = single([s for s in q.body if isinstance(s, ast.Expr) and isinstance(s.value, ast.Call)], 'call in QRCode.save')
+    yield ob('QRCode.save', pat.match(st.value, 'writers.save(self.matrix, self._matrix_size, out, kind, **kw)') is not None, st,
+             got=ast.unparse(st.value), want='writers.save(self.matrix, self._matrix_size, out, kind, **kw)')
+    q = fx.fn('__init__', 'QRCode.svg_inline')
+    calls = [c for c in src.calls_in(q, 'save')]
+    c = single(calls, 'self.save in svg_inline')
+    yield ob('svg_inline = save(kind=svg, xmldecl=False, svgns=False, nl=False, **kw)',
+             pat.match(c, "self.save(buff, kind='svg', xmldecl=False, svgns=False, nl=False, **kw)") is not None, c, got=ast.unparse(c),
+             want="self.save(buff, kind='svg', xmldecl=False, svgns=False, nl=False, **kw)")
+    q = fx.fn('__init__', 'QRCode.terminal')
+    tc = [ast.unparse(c) for c in src.calls_in(q) if (src.call_name(c) or '').startswith('writers.write_terminal')]
+    yield ob('QRCode.terminal passes (matrix, size, out or stdout, border)', 'writers.write_terminal_compact(self.matrix, self._matrix_size, out or sys.stdout, border)' in tc
+             and 'writers.write_terminal(self.matrix, self._matrix_size, out or sys.stdout, border)' in tc, q, got=tc, want='write_terminal[_compact](self.matrix, self._matrix_size, out or sys.stdout, border)')
+
+
+def _transport(expr, source_txt):
+    """Strip transport codings from a returned expression; returns (inner expression text, codings, other calls)."""
+    codings, others = [], []
+    e = expr
+    while True:
+        if isinstance(e, ast.Call):
+            nm = src.call_name(e) or ''
+            last = nm.split('.')[-1]
+            if last in ('b64encode', 'encode', 'quote') or nm in ('encode',):
+                codings.append(nm)
+                e = e.args[0] if e.args else e.func.value
+                continue
+            if last == 'decode' and isinstance(e.func, ast.Attribute):
+                codings.append(nm.split('.')[-1])
+                e = e.func.value
+                continue
+            if ast.unparse(e) == source_txt:
+                return ast.unparse(e), codings, others
+            others.append(nm)
+            if e.args:
+                e = e.args[0]
+                continue
+        return ast.unparse(e), codings, others
+
+
+@rule('C12', 'R2b', 3, 'routes apply only their transport coding to the serialiser output')
+def r2b(fx):
+    for mod, q in (('writers', 'as_svg_data_uri'), ('writers', 'as_png_data_uri'), ('__init__', 'QRCode.svg_inline')):
+        fn = fx.fn(mod, q)
+        r = single([s for s in fn.body if isinstance(s, ast.Return)], f'return of {q}')
+        # the part of the returned value that derives from buff.getvalue()
+        gv = [c for c in ast.walk(r.value) if isinstance(c, ast.Call) and ast.unparse(c) == 'buff.getvalue()']
+        g = single(gv, f'buff.getvalue() in the return of {q}')
+        chain = []
+        n = g
+        while src.parent(n) is not None and src.parent(n) is not r:
+            p = src.parent(n)
+            if isinstance(p, ast.Call) and n in p.args:
+                chain.append(src.call_name(p) or ast.unparse(p.func))
+            elif isinstance(p, ast.Attribute) and isinstance(src.parent(p), ast.Call):
+                chain.append('.' + p.attr)
+            n = p
+        allowed = {'encode', 'quote', 'base64.b64encode', '.decode', '.getvalue'}
+        extra = [c for c in chain if c not in allowed]
+        yield ob(f'{q}: codings applied to the serialiser output', not extra, r, got=chain, want='transport codings only (base64 / percent-encoding / decode)')
+
+
+def _parser_defaults(fx):
+    """{dest: default value} of the argparse definitions in cli.make_parser (static extraction)."""
+    fn = fx.fn('cli', 'make_parser')
+    out = {}
+    for c in src.calls_in(fn, 'add_argument'):
+        kw = src.kwargs_of(c)
+        opts = [a.value for a in c.args if isinstance(a, ast.Constant) and isinstance(a.value, str)]
+        if not opts:
+            continue
+        if 'dest' in kw:
+            dest = kw['dest'].value
+        else:
+            longs = [o for o in opts if o.startswith('--')]
+            dest = (longs[0][2:] if longs else opts[0].lstrip('-')).replace('-', '_')
+        action = kw['action'].value if 'action' in kw and isinstance(kw['action'], ast.Constant) else None
+        if action == 'version':
+            continue
+        if 'default' in kw:
+            default = ev.ev(kw['default'], {})
+        elif action == 'store_true':
+            default = False
+        elif action == 'store_false':
+            default = True
+        else:
+            default = None
+        if dest in out and out[dest] != default and action in ('store_true', 'store_false'):
+            # --micro / --no-micro share a dest: the default is that of the first definition
+            continue
+        out[dest] = default
+    return out
+
+
+def _writer_kw(fx):
+    """{ext: {keyword: default expr}} as cli computes it: parameters with defaults of the dispatch target and its __wrapped__."""
+    table = fx.forest.module_assign('writers', '_VALID_SERIALIZERS')
+    need(isinstance(table, ast.Dict), '_VALID_SERIALIZERS is not a dict display')
+    wrapper = fx.fn('writers', 'colorful.decorate.wrapper')
+    out = {}
+    for k, v in zip(table.keys, table.values):
+        fn = fx.fn('writers', v.id)
+        d = dict(src.param_defaults(fn))
+        if any(isinstance(x, ast.Call) and src.call_name(x) == 'colorful' for x in fn.decorator_list):
+            wd = dict(src.param_defaults(wrapper))
+            # dark / light defaults come from the decorator arguments
+            dec = [x for x in fn.decorator_list if isinstance(x, ast.Call) and src.call_name(x) == 'colorful'][0]
+            dk = src.kwargs_of(dec)
+            for nm in ('dark', 'light'):
+                if nm in dk:
+                    wd[nm] = dk[nm]
+            wd.update(d)
+            d = wd
+        out[k.value] = d
+    return out
+
+
+COLOUR_KEYS = ['dark', 'light', 'finder_dark', 'finder_light', 'format_dark', 'format_light', 'alignment_dark', 'alignment_light',
+               'timing_dark', 'timing_light', 'data_dark', 'data_light', 'version_dark', 'version_light', 'quiet_zone', 'dark_module',
+               'separator']
+
+
+@rule('C12', 'R3', 60, 'CLI: for every output kind (any case of the extension) the options passed without flags equal the serialiser defaults; only accepted keywords are passed')
+def r3(fx):
+    it = Interp(max_steps=20_000_000)
+    defaults = _parser_defaults(fx)
+    wk = _writer_kw(fx)
+    consumed = ['mode', 'error', 'version', 'pattern', 'encoding', 'boost_error', 'seq', 'symbol_count', 'micro', 'content', 'output']
+    mapping = {ext: frozenset(d) for ext, d in wk.items()}
+    genv = callable_env(fx.forest, 'cli', it, {'_EXT_TO_KW_MAPPING': mapping})
+    bc = FuncVal(fx.fn('cli', 'build_config'), genv, it)
+    fn = fx.fn('cli', 'build_config')
+    for ext in sorted(wk):
+        results = {}
+        for spell in (ext, ext.upper(), ext.title(), ext + 'z' if ext == 'svg' else ext):
+            cfg = {k: v for k, v in defaults.items() if k not in consumed}
+            results[spell] = bc(cfg, filename=f'out.dir/name.{spell}')
+        base = results[ext]
+        same = all(v == base for v in results.values())
+        yield ob(f'.{ext}: same configuration for every letter case of the extension' + (' and for .svgz' if ext == 'svg' else ''), same, fn,
+                 got={k: sorted(v) for k, v in results.items() if v != base}, want='identical')
+        extra = sorted(set(base) - set(wk[ext]))
+        yield ob(f'.{ext}: only keywords the serialiser accepts are passed', not extra, fn, got=extra, want=[])
+        wfn_name = [v.id for k, v in zip(fx.forest.module_assign('writers', '_VALID_SERIALIZERS').keys, fx.forest.module_assign('writers', '_VALID_SERIALIZERS').values) if k.value == ext][0]
+        wfn = fx.fn('writers', wfn_name)
+        for k, v in sorted(base.items()):
+            dflt = ev.ev(wk[ext][k], {})
+            ok = v == dflt and type(v) is type(dflt) or v == dflt
+            note = ''
+            if not ok:
+                # normalisation at the top of the serialiser: `if k is None: k = D` / `k = k or D`
+                for s in wfn.body:
+                    b = pat.match(s, f'if {k} is None:\n    {k} = H_d', mode='stmt')
+                    if b is not None and v is None and ev.ev(b['d'], {}) == dflt:
+                        ok, note = True, f'normalised by `if {k} is None: {k} = {dflt!r}`'
+                    b = pat.match(s, f'{k} = {k} or H_d', mode='stmt')
+                    if b is not None and not v and ev.ev(b['d'], {}) == (dflt or ev.ev(b['d'], {})) and not dflt:
+                        ok, note = True, f'normalised by `{k} = {k} or ...`'
+            yield ob(f'.{ext}: {k} without flag', ok, fn, got=f'{v!r} {note}', want=f'{dflt!r} (default of {wfn_name})')
+    # flags given: they survive for the kinds that accept them
+    cfg = {k: v for k, v in defaults.items() if k not in consumed}
+    cfg.update(scale=3, border=1, dark='darkred', light='transparent', title='T', dpi=300, svgid='i', no_classes=True, svgencoding=None, unit='mm')
+    got = bc(dict(cfg), filename='x.svg')
+    want_svg = {'scale': 3, 'border': 1, 'dark': 'darkred', 'light': None, 'title': 'T', 'svgid': 'i', 'svgclass': None, 'lineclass': None,
+                'encoding': None, 'unit': 'mm'}
+    yield ob('flags reach the SVG serialiser (transparent -> None, --no-classes, --svgencoding)', all(got.get(k, '<missing>') == v for k, v in want_svg.items()), fn,
+             got={k: got.get(k, '<missing>') for k in want_svg}, want=want_svg)
+    got = bc(dict(cfg), filename='x.png')
+    yield ob('flags reach the PNG serialiser', all(got.get(k, '<missing>') == v for k, v in dict(scale=3, border=1, dark='darkred', light=None, dpi=300).items())
+             and 'title' not in got, fn, got=got, want='scale, border, dark, light, dpi')
+
+
+@rule('C12', 'R4', 50, 'CLI: every argparse destination is consumed by symbol creation / main or is a serialiser keyword; colour list = colour parameters')
+def r4(fx):
+    defaults = _parser_defaults(fx)
+    wk = _writer_kw(fx)
+    allkw = set().union(*[set(d) for d in wk.values()])
+    mc = fx.fn('cli', 'make_code')
+    popped = {c.args[0].value for c in src.calls_in(mc, 'pop') if src.call_name(c) == 'config.pop' and c.args and isinstance(c.args[0], ast.Constant)}
+    mainf = fx.fn('cli', 'main')
+    popped_main = {c.args[0].value for c in src.calls_in(mainf, 'pop') if src.call_name(c) == 'config.pop' and c.args and isinstance(c.args[0], ast.Constant)}
+    rewrites = {'svgencoding': 'encoding', 'no_classes': 'svgclass'}
+    for dest in sorted(defaults):
+        ok = dest in popped or dest in popped_main or dest in allkw or rewrites.get(dest) in allkw or dest == 'compact'
+        yield ob(f'destination {dest}', ok, fx.fn('cli', 'make_parser'), got='consumed' if ok else 'neither consumed nor a serialiser keyword',
+                 want='consumed by make_code/main or a serialiser keyword')
+    bc = fx.fn('cli', 'build_config')
+    loop = [s for s in bc.body if isinstance(s, ast.For) and isinstance(s.iter, ast.Tuple) and len(s.iter.elts) > 10]
+    l = single(loop, 'colour loop in build_config')
+    got = sorted(e.value for e in l.iter.elts)
+    wrapper = fx.fn('writers', 'colorful.decorate.wrapper')
+    want = sorted(p for p in src.params(wrapper) if p not in ('matrix', 'matrix_size', 'out'))
+    yield ob('colour keys handled by build_config = colour parameters of the colourful serialisers', got == want, l,
+             got=f'missing {sorted(set(want) - set(got))} extra {sorted(set(got) - set(want))}', want='missing [] extra []')
+    # make_code forwards to the factories
+    b = [s for s in mc.body if isinstance(s, ast.Assign) and ast.unparse(s.targets[0]) == 'kw']
+    kwa = single(b, 'kw = dict(...) in make_code')
+    want_kw = "dict(mode=config.pop('mode'), error=config.pop('error'), version=config.pop('version'), mask=config.pop('pattern'), encoding=config.pop('encoding'), boost_error=config.pop('boost_error'))"
+    yield ob('make_code maps the options to the factory keywords', nf.norm(kwa.value) == nf.norm(ast.parse(want_kw, mode='eval').body), kwa,
+             got=ast.unparse(kwa.value), want=want_kw)
+    r = single([s for s in mc.body if isinstance(s, ast.Return)], 'return of make_code')
+    yield ob('make_code encodes the joined content with those keywords', pat.match(r.value, "make(' '.join(config.pop('content')), **kw)") is not None, r,
+             got=ast.unparse(r.value), want="make(' '.join(config.pop('content')), **kw)")
+    # the table of accepted keywords is computed from the signatures
+    lp = [s for s in fx.forest.mod('cli').body if isinstance(s, ast.For)]
+    okl = len(lp) == 1 and 'writers._VALID_SERIALIZERS.items()' in ast.unparse(lp[0].iter) and '__wrapped__' in ast.unparse(lp[0]) \
+        and '_EXT_TO_KW_MAPPING[ext] = frozenset(kws)' in ast.unparse(lp[0])
+    ga = fx.fn('cli', '_get_args')
+    okg = [ast.unparse(s) for s in ga.body] == ['func_code = func.__code__', 'args = func_code.co_varnames[:func_code.co_argcount]',
+                                                 'return args[-len(func.__defaults__):]']
+    yield ob('accepted keywords per kind = parameters with defaults of the serialiser and of the function it wraps', okl and okg,
+             fx.forest.mod('cli'), where='cli (module level)', got=(okl, okg), want=(True, True))
+
+
+@rule('C12', 'R5', 5, 'sequence: files name-NN-MM.ext from the parts of the name (no format template), index from 1, options forwarded')
+def r5(fx):
+    fn = fx.fn('__init__', 'QRCodeSequence.save')
+    # no str.format / % formatting whose receiver derives from `out`
+    tainted = []
+    for n in ast.walk(fn):
+        if isinstance(n, ast.Call) and isinstance(n.func, ast.Attribute) and n.func.attr in ('format', 'format_map'):
+            recv = n.func.value
+            if not isinstance(recv, ast.Constant):
+                tainted.append(ast.unparse(n))
+        if isinstance(n, ast.BinOp) and isinstance(n.op, ast.Mod) and not isinstance(n.left, ast.Constant):
+            tainted.append(ast.unparse(n))
+    yield ob('the file name is never used as a format template', not tainted, fn, got=tainted, want=[])
+    lam = [n for n in ast.walk(fn) if isinstance(n, ast.Lambda)]
+    need(len(lam) == 2, 'QRCodeSequence.save: two filename lambdas expected')
+    it = Interp()
+    genv = callable_env(fx.forest, '__init__', it)
+    outs = []
+    for name in ('a.svg', 'dir.v1/na{0}me.b.png', 'x{}.txt', '%s.pdf'):
+        dot = name.rfind('.')
+        f = ev.ev(lam[1], dict(genv, dot_idx=dot, m=3))
+        outs.append((name, f(name, 2)))
+    want = [('a.svg', 'a-03-02.svg'), ('dir.v1/na{0}me.b.png', 'dir.v1/na{0}me.b-03-02.png'), ('x{}.txt', 'x{}-03-02.txt'), ('%s.pdf', '%s-03-02.pdf')]
+    yield ob('numbered name = <stem>-<total:02d>-<index:02d><.ext>', outs == want, lam[1], got=outs, want=want)
+    ident = ev.ev(lam[0], genv)
+    yield ob('single symbol / stream: name unchanged', ident('x.svg', 1) == 'x.svg', lam[0], got=ident('x.svg', 1), want='x.svg')
+    loop = single([s for s in fn.body if isinstance(s, ast.For)], 'loop in QRCodeSequence.save')
+    ok = pat.match(loop.iter, 'enumerate(self, start=1)') is not None and ast.unparse(loop.target) in ('(n, qrcode)', 'n, qrcode') \
+        and pat.match(loop.body[0], 'qrcode.save(filename(out, n), kind=kind, **kw)', mode='stmt') is not None
+    yield ob('every symbol is saved with index from 1 and the same kind / options', ok, loop, got=ast.unparse(loop)[:120],
+             want='for n, qrcode in enumerate(self, start=1): qrcode.save(filename(out, n), kind=kind, **kw)')
+    cond = [s for s in fn.body if isinstance(s, ast.If)]
+    c = single(cond, 'condition in QRCodeSequence.save')
+    yield ob('numbering only for more than one symbol and a file name with a dot', nf.norm(c.test) == nf.norm(ast.parse('m > 1 and isinstance(out, str)', mode='eval').body)
+             and any(pat.match(s, "dot_idx = out.rfind('.')", mode='stmt') is not None for s in c.body), c, got=ast.unparse(c.test),
+             want="m > 1 and isinstance(out, str); dot_idx = out.rfind('.')")
+
+
+@rule('C12', 'R6', 2, 'CLI without --output prints QRCode.terminal(border, compact); with --output saves build_config(...)')
+def r6(fx):
+    for o in p14.r9(fx):
+        if o.key.startswith(('no output file', 'output file')):
+            yield o
